@@ -423,7 +423,7 @@ pub fn run(ctx: &Ctx, r: &mut Report) {
 		}
 	}
 	for d in reg::indicators() {
-		let cfgs = icfg::configs(&d, ctx.pick(10, 60), ctx.seed);
+		let cfgs = icfg::configs(&d, ctx.pick(24, 60), ctx.seed);
 		for (ci, cfg) in cfgs.iter().enumerate() {
 			k += 1;
 			if !ctx.mine(k) {
